@@ -4,8 +4,39 @@ from props import common as cm
 ID = 'C07'
 MODS = cm.MODS_CORE + ['contracts.c_math']
 FOCUS = 'range'
+GENERATORS = [
+    'yalafi.parameters.Parameters.init_environments.<locals>.labs_enumerate',
+    'yalafi.parameters.Parameters.init_environments.<locals>.labs_itemize',
+    'yalafi.parser.Parser.__init__.<locals>.labs_default']
 FUNCS = cm.UTILS + cm.SCANNER + cm.BUFFER + cm.PARSER + cm.TEX2TXT + \
-    cm.HANDLERS + cm.MATH
+    cm.HANDLERS + cm.MATH + GENERATORS
+
+
+def lemmas():
+    """Parser.expand_item calls next() on the label generator of the
+    current list without a default.  AST scan: every value passed as
+    `items=` and every first component pushed on item_lab_stack is a call
+    of one of the generator functions under the never-ends contract"""
+    import ast
+    from pyvc import front
+    repo = front.repo()
+    short = set(g.rsplit('.', 1)[-1] for g in GENERATORS)
+    n = 0
+    for mi in repo.modules.values():
+        for node in ast.walk(mi.tree):
+            if isinstance(node, ast.Call):
+                for k in node.keywords:
+                    if k.arg == 'items' and not (
+                            isinstance(k.value, ast.Constant) and
+                            k.value.value is None):
+                        n += 1
+                        ok = isinstance(k.value, ast.Name) and \
+                            k.value.id in short
+                        yield ('generators:items=%s@%s:%d' % (
+                            ast.unparse(k.value), mi.name, node.lineno), ok,
+                            'label generator not under the never-ends '
+                            'contract', False)
+    yield 'generators:items-sites-found', n >= 2, '%d sites' % n, False
 
 
 def SELECT(name):
@@ -23,7 +54,7 @@ ASSUMPTIONS = cm.ASSUME_CORE + [
     'are excluded by the property itself',
 ]
 LEVEL_TEXT = ('Deductive proof of absence of run-time errors in the verified functions (together with the obligations that establish the invariants they rely on): one obligation per subscript, '
-    '[-1], pop, None dereference, dictionary look-up, int(), next() without default and tuple unpacking, plus '
+    '[-1], pop, None dereference, dictionary look-up, int(), next() without default and tuple unpacking; the \\item label generators on which expand_item calls next() without default never end (does-not-return contract on the three generator bodies, all items= values are such generators), plus '
     'unreachability of every utils.fatal call other than the documented one, plus the termination variant of the '
     'scanner loop. The obligations follow from the invariants (non-empty argument buffers, non-empty mandatory '
     'arguments, MacInv argument references, non-empty label stack). Termination of the expander is NOT decided.')
